@@ -362,13 +362,66 @@ def task_matrix_points():
 task_matrix_points.contract_fn = "curves.BaseCurve.__matmul__"
 
 
+def task_mixed_points():
+    """A curve with VECTOR control points combined with a curve with SCALAR control points (the quantifier of C08 names both kinds): A * B and B * A are
+    the curve u -> B(u) A(u) in either operand order, A / B divides by the scalar curve; polynomial and rational operands, different knot vectors."""
+    from ..report import FAILED, PROVED, ob
+    fn = "curves.BaseCurve.__mul__"
+    out = []
+    UA = [F(0), F(0), F(0), F(1, 2), F(1), F(1), F(1)]
+    UB = [F(0), F(0), F(1), F(1)]
+    UC = [F(0), F(0), F(0), F(1, 3), F(1), F(1), F(1)]
+    PA = [np.array([F(i), F(i * i - 1), F(2 - i)], dtype=object) for i in range(4)]
+    PB = [F(2), F(5)]
+    PC = [F(1), F(-2), F(3), F(4)]
+    WA = [F(1), F(2), F(1), F(3)]
+    WB = [F(2), F(1)]
+    us = [F(0), F(1, 5), F(1, 2), F(7, 10), F(1)]
+
+    def val(U, P, W, u):
+        p = U.count(U[0]) - 1
+        N = spec.basis(U, p, p, u)
+        if W is None:
+            return sum(n_ * q for n_, q in zip(N, P))
+        den = sum(n_ * w for n_, w in zip(N, W))
+        return sum(n_ * w * q for n_, w, q in zip(N, W, P)) / den
+    operands = {
+        "pol*pol": ((UA, PA, None), (UB, PB, None)), "pol*pol-other-knots": ((UA, PA, None), (UC, PC, None)),
+        "rat*pol": ((UA, PA, WA), (UB, PB, None)), "pol*rat": ((UA, PA, None), (UB, PB, WB)), "rat*rat": ((UA, PA, WA), (UB, PB, WB)),
+    }
+    ops = {"A*B": (lambda A, B: A * B, lambda a, b: a * b), "B*A": (lambda A, B: B * A, lambda a, b: a * b), "A/B": (lambda A, B: A / B, lambda a, b: a / b)}
+    for oname, (ta, tb) in operands.items():
+        for name, (op, want) in ops.items():
+            if name == "A/B" and oname == "pol*pol-other-knots":
+                continue        # that scalar curve has a zero
+            bad = None
+            try:
+                A = curves.Curve(list(ta[0]), [q.copy() for q in ta[1]], None if ta[2] is None else list(ta[2]))
+                B = curves.Curve(list(tb[0]), list(tb[1]), None if tb[2] is None else list(tb[2]))
+                R = op(A, B)
+                for u in us:
+                    exp = want(val(*ta, u), val(*tb, u))
+                    got = R(u)
+                    if np.shape(got) != np.shape(exp) or not all(x == y for x, y in zip(got, exp)):
+                        bad = "(%s)(%s) = %r, expected %r" % (name, u, got, exp)
+                        break
+            except Exception as e:
+                bad = "%s: %s" % (type(e).__name__, str(e)[:100])
+            out.append(ob("%s:vector-times-scalar-curve[%s,%s]" % (fn, oname, name), fn, FAILED if bad else PROVED, "B", "concrete", 0.0,
+                          bad or "pointwise product / quotient of a vector-valued and a scalar-valued curve", dict(kind="c08.mixed", operands=oname, case=name) if bad else None))
+    return out + [{"_stats": dict(cases=len(out))}]
+
+
+task_mixed_points.contract_fn = "curves.BaseCurve.__mul__"
+
+
 def tasks(tier, seed):
     from ..pyvc.driver import verify
     from ..contracts import curvesv
     # operators with a scalar operand and copy, at the level of control points, for curves with ANY number of control points: a new curve whose control points are
     # -P_i, s + P_i, P_i - s, s - P_i, s * P_i, P_i / s (ZeroDivisionError for s == 0), same knot-vector content and weights, operand unchanged
-    ts = [(verify, (c, m, q, v)) for c, m, q, v in curvesv.ALL if q in ("BaseCurve.__neg__", "BaseCurve.__add__", "BaseCurve.__radd__", "BaseCurve.__sub__", "BaseCurve.__rsub__",
-                                                                           "BaseCurve.__mul__", "BaseCurve.__rmul__", "BaseCurve.__truediv__", "BaseCurve.__deepcopy__")]
+    ts = curvesv.tasks_for(("BaseCurve.__neg__", "BaseCurve.__add__", "BaseCurve.__radd__", "BaseCurve.__sub__", "BaseCurve.__rsub__",
+                                                                           "BaseCurve.__mul__", "BaseCurve.__rmul__", "BaseCurve.__truediv__", "BaseCurve.__deepcopy__"))
     for pr in pairs(tier):
         for variant in ((0, 1) if tier == "quick" else (0, 1, 2)):
             ts.append((task_binary, (pr, variant, False, tier)))
@@ -385,11 +438,15 @@ def tasks(tier, seed):
             ts.append((task_binary, (pr, variant, True, tier, True)))
     ts.append((task_interval, (0,)))
     ts.append((task_matrix_points, ()))
+    ts.append((task_mixed_points, ()))
     return ts
 
 
 def replay(o):
     w = o["witness"]
+    if w.get("kind") == "c08.mixed":
+        r = [x for x in task_mixed_points() if "id" in x and x["id"].endswith("[%s,%s]" % (w["operands"], w["case"]))][0]
+        return r["status"] == "failed", "pointwise product / quotient of a vector-valued curve and a scalar-valued curve", r["detail"]
     if w.get("kind") == "c08.m2":
         r = [x for x in task_matrix_points() if "id" in x and x["id"].endswith("[%s]" % w["case"])][0]
         return r["status"] == "failed", "pointwise result with matrix-valued control points", r["detail"]
